@@ -65,6 +65,8 @@ def names(case, scheme="plain"):
         return VAR_NAMES[:v], TER_NAMES[:t]
     if scheme == "cnf":       # names that look like the normal-form inventions
         return ["S", "a#CNF#", "C#CNF#1"][:v], TER_NAMES[:t]
+    if scheme == "cnf2":      # two consecutively numbered binarisation variables already taken
+        return ["S", "C#CNF#1", "C#CNF#2"][:v], TER_NAMES[:t]
     if scheme == "clash":     # a variable and a terminal with the same spelling
         return ["S", "a", "b"][:v], TER_NAMES[:t]
     if scheme == "subs":
